@@ -191,10 +191,34 @@ def strip_comments(text):
     return "".join(out)
 
 
-def hygiene():
-    """Step 2. Returns list of problems."""
+REQ_RE = re.compile(r"From\s+AV\s+Require\s+(?:Import|Export)?\s*([^.]*(?:\.[A-Za-z_][\w]*)*[^.]*)\.\s", re.S)
+
+
+def closure(rel_files):
+    """Transitive closure of `From AV Require Import A.B ...` starting from the given files (relative to coq/)."""
+    seen = []
+    todo = list(rel_files)
+    while todo:
+        f = todo.pop()
+        if f in seen or not os.path.exists(os.path.join(COQ, f)):
+            continue
+        seen.append(f)
+        with open(os.path.join(COQ, f), encoding="utf8") as fp:
+            text = strip_comments(fp.read())
+        for m in re.finditer(r"From\s+AV\s+Require\s+(?:Import\s+|Export\s+)?((?:[A-Za-z_]\w*(?:\.[A-Za-z_]\w*)*\s*)+)\.", text):
+            for mod in m.group(1).split():
+                todo.append(mod.replace(".", "/") + ".v")
+    return sorted(seen)
+
+
+def hygiene(rel_files=None):
+    """Step 2. Returns list of problems (in the closure of rel_files, or everywhere)."""
     problems = []
-    for path in sorted(glob.glob(os.path.join(COQ, "**", "*.v"), recursive=True)):
+    if rel_files is None:
+        paths = sorted(glob.glob(os.path.join(COQ, "**", "*.v"), recursive=True))
+    else:
+        paths = [os.path.join(COQ, f) for f in closure(rel_files)]
+    for path in paths:
         rel = os.path.relpath(path, COQ)
         with open(path, encoding="utf8") as fp:
             text = strip_comments(fp.read())
@@ -471,7 +495,7 @@ class Check:
             ok, gen_info = regenerate()
             if not ok:
                 broken.append("translator: " + gen_info["error"])
-            hyg = hygiene()
+            hyg = hygiene([self.props_file] + [f"Model/{m}.v" for m in self.models])
             for h in hyg:
                 broken.append("hygiene: " + h)
             pc = {"theorems": [], "assumptions": [], "cmd": "", "ok": False, "printed": 0, "bad_axioms": []}
